@@ -415,6 +415,24 @@ class RidgeWorld:
                     recorded["folds"] = None
                     self.fit(news.get(op["obj"], self.cur), op, X, y, recorded)
             self.lanes()
+            # what every estimator reported at its last fit is still what it reports after all
+            # the other estimators of the process were fitted (no fitted state shared between
+            # objects - pooled work arrays, module-level caches)
+            for nm, (cvv0, a0, b0, c0) in sorted(getattr(self, "last_reported", {}).items()):
+                est = self.ests.get(nm)
+                if est is None or nm in getattr(self, "refilled_predict_done", ()):
+                    continue
+                try:
+                    now = (np.asarray(est.cv_values_, dtype=float), float(est.alpha_), float(est.best_score_), np.asarray(est.coef_, dtype=float))
+                except Exception as e:  # noqa: BLE001
+                    self.violate("public_state_missing", f"{type(e).__name__}: {e} (re-read at the end of the trace)")
+                    continue
+                same = (now[0].shape == cvv0.shape and np.array_equal(now[0], cvv0, equal_nan=True) and now[1] == a0
+                        and (now[2] == b0 or (np.isnan(now[2]) and np.isnan(b0))) and now[3].shape == c0.shape and np.array_equal(now[3], c0, equal_nan=True))
+                if not same:
+                    self.violate("fitted_result_moved_by_later_activity", f"{nm}: cv_values_/alpha_/best_score_/coef_ read again at the end of the trace differ from what its last fit reported (alpha_ {now[1]!r} vs {a0!r}; max coef diff {float(np.max(np.abs(now[3] - c0))) if now[3].shape == c0.shape else 'shape'})")
+                else:
+                    self.count("fitted_result_unchanged_at_end_of_trace")
         finally:
             for mod, name, orig in patched:
                 setattr(mod, name, orig)
@@ -571,10 +589,14 @@ class RidgeWorld:
                 pass
         f1, f2 = folds
         try:
-            cvv = np.asarray(est.cv_values_, dtype=float)
+            # private copies: what the fit reported is compared again at the end of the trace
+            cvv = np.array(est.cv_values_, dtype=float, copy=True)
             alpha_ = float(est.alpha_)
             best = float(est.best_score_)
-            coef = np.asarray(est.coef_, dtype=float)
+            coef = np.array(est.coef_, dtype=float, copy=True)
+            if not hasattr(self, "last_reported"):
+                self.last_reported = {}
+            self.last_reported[new["obj"]] = (cvv, alpha_, best, coef)
         except Exception as e:  # noqa: BLE001
             self.violate("public_state_missing", f"{type(e).__name__}: {e} | {desc}")
             return
